@@ -52,8 +52,8 @@ PROPS = {
                 "and inhabitation of every evaluated subexpression's annotated type; non-trivial = distinct (policy, environment, result)",
         "theorems": ["typeOf_sound_partial", "typeOf_types_wellformed", "accepted_boolean_or_permitted_error", "typed_false_never_satisfied",
                      "impossible_policy_never_satisfied"],
-        "assumptions": ["soundness is PROVED only for the fragment `Cedar.InFragment` named in Thm/C03.lean (literals, variables, && || ! if, unary -, + - *, has and . "
-                        "on records and entities with capabilities); ==, <, in, is, like, contains*, tags, set/record literals, extension calls, slots are "
+        "assumptions": ["soundness is PROVED only for the fragment `Cedar.InFragment` named in Thm/C03.lean (literals, variables, && || ! if, unary -, + - *, ==, like, is, has and . "
+                        "on records and entities with capabilities); <, in, isEmpty, contains*, tags, set/record literals, extension calls, slots are "
                         "covered by the differential run and the implementation-level soundness search only",
                         "strict_implies_permissive is not proved; it is checked on the implementation for every generated policy",
                         "the resolved ValidatorSchema is taken from Rust (schema construction is C09's subject); SchemaWF (single entity types, no action "
